@@ -38,7 +38,7 @@ func writeManifest(path string) error {
 			"engine":              "ugolint",
 			"level_claimed": map[string]any{
 				"category":   "other",
-				"text":       m.Text,
+				"text":       m.Text + " The complete list of rules with their statements, structural floors and instance counts is in RULES.md and in the evidence file; known defects of the pinned tree are in known_findings.json.",
 				"design_ref": m.DesignRef,
 			},
 			"level_note": m.Note,
